@@ -7,7 +7,7 @@ here=$(dirname "$(readlink -f "$0")")/..
 scratch=$(mktemp -d /tmp/vmut.XXXXXX)
 trap 'rm -rf "$scratch"' EXIT
 rsync -a --exclude .git /repo/ "$scratch/repo/"
-if ! (cd "$scratch/repo" && patch -p1 -s < "$patch"); then echo "MUTANT-PATCH-FAILED $patch"; exit 3; fi
+if ! (cd "$scratch/repo" && patch -p1 -s --fuzz=3 < "$patch"); then echo "MUTANT-PATCH-FAILED $patch"; exit 3; fi
 if [ -n "${MUT_BASELINE:-}" ]; then
   (cd "$scratch/repo" && GOFLAGS=-mod=mod GOPROXY=off GOSUMDB=off GOTOOLCHAIN=local go test -mod=mod -vet=off -count=1 ./... >/dev/null 2>&1) || { echo "MUTANT-BREAKS-BASELINE $patch"; exit 4; }
 fi
